@@ -415,3 +415,71 @@ Proof.
     + cbn [set_half s_ncalls]. rewrite Hnc. rewrite nsg_app, nsg_tags. unfold nsg in *. cbn [filter is_sg length] in *.
       fold (nsg ev). unfold nsg. lia.
 Qed.
+
+(* ---------------------------------------------------------------- in-order branch *)
+Lemma asm_inorder_ok : forall S i c s evn l0 h A p o n g,
+  zlen S < HIS -> s_exists s = true -> s_cfg s = c -> half_ok S i (Some (A, p)) h ->
+  0 <= o -> o <= p -> 0 <= n -> o + n <= zlen S -> g_bytes g = sub S o n ->
+  (g_fin g = true -> o + n = zlen S) ->
+  exists st' ev g',
+    asm_inorder_body fullv s evn (map ETag l0) h (sq i o) g = (st', evn ++ ev, false) /\
+    gevs S c (limits_on c) (s_ncalls s) (GLive (Some (A, p)) false) ev g' /\ ginv c S i g' st' /\
+    s_ncalls st' = (s_ncalls s + nsg ev)%nat.
+Proof.
+  intros S i c s evn l0 h A p o n g HS Hex Hcfg Hh Ho Hop Hn HoS Hb Hfin.
+  pose proof Hh as (Hcl & Hq & Hnx & HA & HpS & Hsv). cbn [lo_of] in Hq.
+  pose proof (sok_range _ _ _ _ _ Hsv) as HAp.
+  unfold asm_inorder_body. rewrite Hb, Hnx.
+  change (overlap_existing fullv (sq i p) (sq i o) (sub S o n))
+    with (overlap_existing fixedv (sq i p) (sq i o) (sub S o n)).
+  rewrite inorder_path by (unfold HIS, HALFW in *; lia).
+  rewrite trimmed_eq by lia.
+  set (nt := Z.max p (o + n) - p).
+  assert (Hnt : 0 <= nt) by (subst nt; lia).
+  assert (HntS : p + nt <= zlen S) by (subst nt; lia).
+  set (r := check_overlap fullv (h_queue h) (sub S p nt) (sq i p) (g_ts g) (g_rst g || g_fin g) false).
+  destruct (check_overlap_inorder_gen S i (h_queue h) p nt (g_ts g) (g_rst g || g_fin g) HS Hq ltac:(lia) Hnt HntS)
+    as (Hp & n' & Hn' & Hb' & Hq' & Hfull).
+  fold r in Hp, Hb', Hq', Hfull. rewrite Hp, Hb', Hcfg.
+  assert (Hn'0 : 0 <= n' <= nt) by (destruct Hn'; lia).
+  rewrite (zlen_sub S p n') by lia.
+  set (itag := if (0 <? zlen (sub S o n)) && (n' =? 0) then [11] else []).
+  assert (Hitag : (if (0 <? zlen (sub S o n)) && (n' =? 0) then [ETag 11] else []) = map ETag itag)
+    by (subst itag; destruct ((0 <? zlen (sub S o n)) && (n' =? 0)); reflexivity).
+  rewrite Hitag.
+  destruct ((0 <? n') || (g_rst g || g_fin g) || g_syn g) eqn:Esend.
+  - destruct (deliver S i c s
+                (mkHalf (h_pages h - c2_rel r) (h_saved h) (c2_queue r) (sq i p) (h_seen h) (h_closed h))
+                (s_used s - c2_rel r)
+                (CLive (mkLive (sub S p n') (sq i p) (g_syn g) (g_rst g || g_fin g) (g_ts g)))
+                p (Some (A, p)) (limits_on c) HS Hex Hcfg)
+      as (s1 & e' & ev & g' & Hsend & Hgev & Hnsg & He1 & He2 & Hc1 & Hnc & _ & _ & Hpost).
+    { exact Hcl. }
+    { unfold cok, clen. cbn [cbytes cseq lbytes lseq]. rewrite zlen_sub by lia. repeat split; try lia. }
+    { unfold clen. cbn [cbytes lbytes h_queue]. rewrite zlen_sub by lia. exact Hq'. }
+    { cbn [known_ok h_next h_saved]. repeat split; try assumption; lia. }
+    { left; reflexivity. }
+    rewrite Hsend. rewrite sq_not_invalid.
+    eexists. exists (map ETag (l0 ++ c2_tags r ++ itag) ++ ev), g'.
+    split; [rewrite !map_app, <- !app_assoc; reflexivity|]. split.
+    + eapply gevs_app; [apply gevs_tags|]. rewrite nsg_tags, Nat.add_0_r. exact Hgev.
+    + split.
+      * apply (after_deliver S i c s1 e' g'); try assumption.
+        destruct g' as [|kn' en]; [exact Hpost|].
+        destruct Hpost as (H1 & H2 & _ & A' & Hk & H3). split; [exact H1|]. split; [exact H2|].
+        exists A'. split; [exact Hk|]. intros Hen. destruct (H3 Hen) as (_ & HA' & Hs & Hqq & Hend).
+        split; [|auto].
+        destruct (g_fin g) eqn:Ef; [|reflexivity]. exfalso.
+        assert (Hend' : p + nt = zlen S) by (subst nt; specialize (Hfin eq_refl); lia).
+        specialize (Hfull Hend'). subst n'.
+        assert (Hqe : c2_queue r = []) by (eapply qok_beyond_end; [exact Hq'|lia]).
+        cbn [h_queue cend lend] in Hend. specialize (Hend Hqe). rewrite orb_true_r in Hend. discriminate.
+      * cbn [set_half s_ncalls]. rewrite Hnc. rewrite nsg_app, nsg_tags. lia.
+  - assert (n' = 0) by lia. subst n'.
+    eexists. exists (map ETag (l0 ++ c2_tags r ++ itag)), (GLive (Some (A, p)) false).
+    split; [rewrite !map_app; reflexivity|]. split; [apply gevs_tags|]. split.
+    + unfold ginv. cbn [s_cfg s_exists s_half h_closed]. split; [reflexivity|]. split; [exact Hex|]. split; [exact Hcl|].
+      intros _. unfold half_ok. cbn [h_closed h_queue h_next h_saved lo_of].
+      rewrite Z.add_0_r in Hq'. auto 10.
+    + rewrite nsg_tags. cbn [s_ncalls]. lia.
+Qed.
